@@ -67,11 +67,13 @@ type Conn struct {
 	qoff   int // offset into queue[0].Data
 	closed bool
 
-	finalStarted bool
-	rArmed       bool
-	rDL          time.Time
-	wArmed       bool
-	wDL          time.Time
+	finalStarted   bool
+	writersBlocked int
+	wTimedOut      bool
+	rArmed         bool
+	rDL            time.Time
+	wArmed         bool
+	wDL            time.Time
 
 	Srv Server
 	// Seg decides how many bytes (1..avail) a Read may return; nil = as many as fit.
@@ -447,7 +449,8 @@ func (c *Conn) Write(p []byte) (int, error) {
 		if n < 0 {
 			n = 0
 		}
-		for !c.closed && c.BlockWritesAfter >= 0 && !(c.wArmed && !time.Now().Before(c.wDL.Add(writeSkew))) {
+		c.writersBlocked++
+		for !c.closed && c.BlockWritesAfter >= 0 && !c.wTimedOut && !(c.wArmed && !time.Now().Before(c.wDL.Add(writeSkew))) {
 			var t *time.Timer
 			if c.wArmed {
 				t = time.AfterFunc(time.Until(c.wDL)+writeSkew+time.Millisecond, func() { c.cond.Broadcast() })
@@ -457,9 +460,13 @@ func (c *Conn) Write(p []byte) (int, error) {
 				t.Stop()
 			}
 		}
+		c.writersBlocked--
 		switch {
 		case c.closed:
 			err = &net.OpError{Op: "write", Net: "sim", Err: net.ErrClosed}
+		case c.wTimedOut:
+			c.wTimedOut = false
+			err = &net.OpError{Op: "write", Net: "sim", Err: timeoutErr{}}
 		case c.BlockWritesAfter < 0:
 			n = len(p) // the peer reads again: the write completes
 		default:
@@ -541,6 +548,11 @@ func (c *Conn) SetReadDeadline(t time.Time) error {
 
 func (c *Conn) SetWriteDeadline(t time.Time) error {
 	c.mu.Lock()
+	if c.wArmed && !c.wDL.IsZero() && !time.Now().Before(c.wDL) && c.writersBlocked > 0 {
+		// the deadline being replaced has already passed while a write was blocked: on a socket
+		// that write has failed at that instant, whatever is armed afterwards
+		c.wTimedOut = true
+	}
 	c.wArmed = !t.IsZero()
 	c.wDL = t
 	c.rec(Event{Op: "set-write-deadline", Armed: c.wArmed})
